@@ -139,3 +139,166 @@ def all_contracts(tier):
     cs = [matching_contract("bottleneck"), matching_contract("wasserstein")]
     table = {(MOD, "plot_diagrams"): Contract(MOD, "plot_diagrams", None, summary=pd_summary)}
     return cs, table
+
+
+# ----------------------------------------------------------------------------- plot_diagrams as a call-trace contract
+# One scatter per plotted diagram, in order, at (birth, death) - (birth, death - birth) in lifetime mode - with infinite deaths on the
+# infinity line, which lies strictly inside the y-limits; limits contain every finite coordinate unless a range is given; labels,
+# title, legend, show as requested; nothing through pyplot's current axes; the caller's arrays are not written.
+def plot_diagrams_contract(lifetime=False, with_range=False, n_dgms=2, legend=True, title=True):
+    from pyvc.values import BoolV
+    from pyvc import values as V
+
+    def make_args(eng):
+        ds, ns = [], []
+        for t in range(n_dgms):
+            n = eng.fresh_int("n%d" % t, lo=1)
+            D = fresh_symbolic("dgm%d" % t, (n, 2), dtype="float", origin="param:diagrams[%d]" % t, finite=False, eng=eng)
+            ds.append(D)
+            ns.append(n)
+        ax = Recorder("ax")
+        args = {"diagrams": list(ds) if n_dgms > 1 else ds[0], "lifetime": lifetime, "legend": legend, "ax": ax, "title": "T" if title else None}
+        g = {"ds": ds, "ns": ns, "ax": ax}
+        if with_range:
+            r = [eng.fresh_real(nm) for nm in ("xr0", "xr1", "yr0", "yr1")]
+            eng.assume(z3.And(r[0].t < r[1].t, r[2].t < r[3].t))
+            args["xy_range"] = list(r)
+            g["range"] = r
+        return args, g
+
+    def is_pinf(v):
+        v = lift(v)
+        return V._kterm(v.k) == 1
+
+    def requires(a):
+        # births finite; deaths finite or +inf, not below the birth; two different finite coordinates exist (a non-degenerate picture)
+        out = []
+        e = a.eng
+        for t, (D, n) in enumerate(zip(a.g["ds"], a.g["ns"])):
+            i = z3.Int("pq%d" % t)
+            rng = z3.And(i >= 0, i < to_z3(n))
+            b = e.under(rng, lambda D=D, i=i: D.get(Num(i), 0))
+            d = e.under(rng, lambda D=D, i=i: D.get(Num(i), 1))
+            out.append(("diagram_%d_births_finite_deaths_finite_or_plus_inf_and_not_before_birth" % t,
+                        z3.ForAll([i], z3.Implies(rng, z3.And(V._kterm(lift(b).k) == 0, z3.Or(V._kterm(lift(d).k) == 0, V._kterm(lift(d).k) == 1),
+                                                              z3.Implies(V._kterm(lift(d).k) == 0, to_z3(lift(d)) >= to_z3(lift(b))))))))
+        D0 = a.g["ds"][0]
+        w1, w2 = e.fresh_int("wa", lo=0, hi=a.g["ns"][0]), e.fresh_int("wb", lo=0, hi=a.g["ns"][0])
+        a.g["w"] = (w1, w2)
+        out.append(("two_different_finite_coordinates", z3.And(V._kterm(lift(D0.get(w2, 1)).k) == 0, to_z3(lift(D0.get(w1, 0))) < to_z3(lift(D0.get(w2, 1))))))
+        return out
+
+    def flat_index(g, t, k, c):
+        off = 0
+        for n in g["ns"][:t]:
+            off = off + n
+        return (off + lift(k)) * 2 + c
+
+    def query_rows(e, g):
+        if "qk" not in g:
+            g["qk"] = [e.fresh_int("ks%d" % t, lo=0, hi=n) for t, n in enumerate(g["ns"])]
+            # ground instances of the (quantified) precondition at the rows asked about
+            for t, k in enumerate(g["qk"]):
+                D = g["ds"][t]
+                rng = z3.And(to_z3(k) >= 0, to_z3(k) < to_z3(lift(g["ns"][t])))
+                b = e.under(rng, lambda: D.get(k, 0), default=0.0)
+                d = e.under(rng, lambda: D.get(k, 1), default=0.0)
+                e.axiom(z3.Implies(rng, z3.And(V._kterm(lift(b).k) == 0, z3.Or(V._kterm(lift(d).k) == 0, V._kterm(lift(d).k) == 1),
+                                               z3.Implies(V._kterm(lift(d).k) == 0, to_z3(lift(d)) >= to_z3(lift(b))))))
+        return g["qk"]
+
+    def hint_extent(st):
+        # D6 facts of the finite-coordinate selection at the rows the postcondition asks about and at the precondition's witnesses,
+        # then the instances of  ax_min <= coordinate <= ax_max  for those entries
+        e, g = st.eng, st.g
+        info = getattr(st.finite_dgms, "compress", None)
+        if info is None:
+            return []
+        out = []
+        qs = [(t, k, c) for t, k in enumerate(query_rows(e, g)) for c in (0, 1)] + [(0, g["w"][0], 0), (0, g["w"][1], 1)]
+        for (t, k, c) in qs:
+            fi = flat_index(g, t, k, c)
+            v = g["ds"][t].get(k, c)
+            fin = V._kterm(lift(v).k) == 0
+            r = e.under(fin, lambda fi=fi: info.rank_of(fi), default=None)
+            if r is None:
+                continue
+            got = e.under(fin, lambda r=r: st.finite_dgms.get(r), default=0.0)
+            from pyvc.models import instantiate_extremes
+            e.under(fin, lambda r=r: instantiate_extremes(e, st.finite_dgms, r), default=None)
+            out.append(("selected_entry_%d_%s_%d_is_the_coordinate" % (t, str(k)[:6], c), BoolV(z3.Implies(fin, to_z3(lift(got)) == to_z3(lift(v))))))
+            out.append(("extent_contains_%d_%s_%d" % (t, str(k)[:6], c), BoolV(z3.Implies(fin, z3.And(to_z3(lift(st.ax_min)) <= to_z3(lift(v)), to_z3(lift(v)) <= to_z3(lift(st.ax_max)))))))
+        return out
+
+    def hint_any_inf(st):
+        # np.any(...) false  =>  false at each entry the postcondition asks about (ground instances of the reduction's meaning)
+        e, g = st.eng, st.g
+        out = []
+        for t, k in enumerate(query_rows(e, g)):
+            for c in (0, 1):
+                fi = flat_index(g, t, k, c)
+                from pyvc.models import instantiate_all
+                instantiate_all(e, st.has_inf, fi)
+                v = e.under(z3.And(to_z3(lift(k)) >= 0, to_z3(lift(k)) < to_z3(lift(g["ns"][t]))), lambda fi=fi: st.concat_dgms.get(fi), default=0.0)
+                out.append(("no_infinite_entry_means_entry_%d_%d_finite" % (t, c), BoolV(z3.Implies(z3.Not(zb(st.has_inf)), V._kterm(lift(v).k) == 0))))
+        return out
+
+    def hint_nonempty(st):
+        # the finite selection is not empty: the precondition's witnesses are finite coordinates (D6 facts at those positions)
+        e, g = st.eng, st.g
+        info = getattr(st.finite_dgms, "compress", None)
+        if info is not None:
+            for (t, k, c) in ((0, g["w"][0], 0), (0, g["w"][1], 1)):
+                info.rank_of(flat_index(g, t, k, c))
+        return []
+
+    def ensures(a, res):
+        e, g = a.eng, a.g
+        ax = g["ax"]
+        calls = {}
+        for (m, pos, kw) in ax.other:
+            calls.setdefault(m, []).append((pos, kw))
+        sc = calls.get("scatter", [])
+        out = [("one_scatter_per_diagram", len(sc) == n_dgms, "P"),
+               ("limits_set_once", len(calls.get("set_xlim", [])) == 1 and len(calls.get("set_ylim", [])) == 1, "P"),
+               ("title_as_requested", (len(calls.get("set_title", [])) == 1 and calls["set_title"][0][0][0] == "T") if title else ("set_title" not in calls), "P"),
+               ("legend_iff_requested", (len(calls.get("legend", [])) == 1) == bool(legend), "P"),
+               ("nothing_through_pyplot_current_axes", "gca_axes" not in e.ghost and not [c for c in getattr(e.ghost.get("plt_rec"), "other", []) if c[0] not in ("style",)], "P")]
+        if len(sc) != n_dgms or len(calls.get("set_xlim", [])) != 1 or len(calls.get("set_ylim", [])) != 1:
+            return out
+        xl, yl = calls["set_xlim"][0][0][0], calls["set_ylim"][0][0][0]
+        x_down, x_up, y_down, y_up = xl[0], xl[1], yl[0], yl[1]
+        out.append(("axes_have_positive_extent", b_and(lift(x_down) < x_up, lift(y_down) < y_up), "P"))
+        for t, ((pos, kw), D, n) in enumerate(zip(sc, g["ds"], g["ns"])):
+            X, Y = pos[0], pos[1]
+            ok = isinstance(X, Arr) and isinstance(Y, Arr) and X.ndim == 1 and Y.ndim == 1
+            out.append(("scatter_%d_gets_coordinate_vectors" % t, ok, "P"))
+            if not ok:
+                continue
+            k = query_rows(e, g)[t]
+            out.append(("scatter_%d_has_one_marker_per_point" % t, b_and(lift(X.shape[0]) == n, lift(Y.shape[0]) == n), "P"))
+            b, d = D.get(k, 0), D.get(k, 1)
+            out.append(("scatter_%d_abscissa_is_the_birth" % t, lift(X.get(k)) == b, "P"))
+            fin = V._kterm(lift(d).k) == 0
+            want = (lift(d) - b) if lifetime else lift(d)
+            out.append(("scatter_%d_ordinate_of_a_finite_point" % t, BoolV(z3.Implies(fin, z3.And(V._kterm(lift(Y.get(k)).k) == 0, to_z3(lift(Y.get(k))) == to_z3(want)))), "P"))
+            out.append(("scatter_%d_infinite_death_on_a_line_strictly_inside_the_axes" % t,
+                        BoolV(z3.Implies(z3.Not(fin), z3.And(V._kterm(lift(Y.get(k)).k) == 0, to_z3(lift(Y.get(k))) > to_z3(lift(y_down)), to_z3(lift(Y.get(k))) < to_z3(lift(y_up))))), "P"))
+            if not with_range:
+                out.append(("x_limits_contain_birth_%d" % t, b_and(lift(x_down) <= b, lift(b) <= x_up), "P"))
+                out.append(("y_limits_contain_finite_ordinate_%d" % t, BoolV(z3.Implies(fin, z3.And(to_z3(lift(y_down)) <= to_z3(want), to_z3(want) <= to_z3(lift(y_up))))), "P"))
+        if with_range and not lifetime:
+            r = g["range"]
+            out.append(("limits_are_the_requested_range", b_and(lift(x_down) == r[0], lift(x_up) == r[1], lift(y_down) == r[2], lift(y_up) == r[3]), "P"))
+        return out
+    return Contract(MOD, "plot_diagrams", make_args, requires=requires, ensures=ensures, definedness="P",
+                    hints=[("ax_min, ax_max = np.min(finite_dgms), np.max(finite_dgms)", hint_extent), ("has_inf = np.any(np.isinf(concat_dgms))", hint_any_inf),
+                           ("finite_dgms = concat_dgms[np.isfinite(concat_dgms)]", hint_nonempty)],
+                    variant="lifetime=%s,range=%s,n=%d,legend=%s,title=%s" % (lifetime, with_range, n_dgms, legend, title))
+
+
+def plot_diagrams_contracts(tier):
+    cs = [plot_diagrams_contract(False, False, 2, True, True), plot_diagrams_contract(True, False, 2, False, False), plot_diagrams_contract(False, True, 1, True, False)]
+    if tier != "quick":
+        cs += [plot_diagrams_contract(True, False, 1, True, True), plot_diagrams_contract(False, False, 1, False, False)]
+    return cs, {}
